@@ -29,6 +29,11 @@ type aclBeh struct {
 	R   map[string]int `json:"r"`
 	Amb map[string]int `json:"amb"`
 	M   map[string]int `json:"m"`
+	// verdicts of the sub-lists at odd / even positions (mixed-family rendering)
+	ROdd    map[string]int `json:"rodd"`
+	AmbOdd  map[string]int `json:"ambodd"`
+	REven   map[string]int `json:"reven"`
+	AmbEven map[string]int `json:"ambeven"`
 }
 
 // embedding of the W model bits (most significant first) into real addresses:
@@ -107,6 +112,11 @@ func aclReplay(args []string) int {
 			res.ID = fmt.Sprintf("%s%d_%s", *prefix, n, e.family)
 			out.Write(res)
 		}
+		if len(b.Acl) >= 2 && b.ROdd != nil {
+			res := runAclMixed(&b, embs[0], embs[1], line)
+			res.ID = fmt.Sprintf("%s%d_mixed", *prefix, n)
+			out.Write(res)
+		}
 		return nil
 	})
 	if err != nil {
@@ -173,6 +183,93 @@ func runAcl(b *aclBeh, e embedding, raw []byte) hx.CaseResult {
 		}
 		if g != b.R[k] {
 			fail(map[string]any{"obs": "acl-match", "addr": addrs[a], "expected": b.R[k] == 1, "got": g == 1})
+		}
+	}
+	return res
+}
+
+// runAclMixed writes the entries at odd positions as IPv4 and those at even positions as IPv6 entries of one acl.
+// IPv4 addresses are matched through a STRING operand with `~`, IPv6 addresses through an IP operand with `!~`
+// (the verdict is the negation) - the other operand types and operator of the property statement.
+func runAclMixed(b *aclBeh, e4, e6 embedding, raw []byte) hx.CaseResult {
+	res := hx.CaseResult{Validated: true}
+	var sb strings.Builder
+	sb.WriteString("acl t {\n")
+	hasNeg, hasNoMask := false, false
+	for i, en := range b.Acl {
+		e := e4
+		if i%2 == 1 {
+			e = e6
+		}
+		sb.WriteString("  ")
+		if en.Neg {
+			sb.WriteString("!")
+		}
+		fmt.Fprintf(&sb, "%q", e.addr(b.W, en.P))
+		if !en.NoMask {
+			fmt.Fprintf(&sb, "/%d", e.plen[en.Len])
+		}
+		sb.WriteString(";\n")
+		hasNeg = hasNeg || en.Neg
+		hasNoMask = hasNoMask || en.NoMask
+	}
+	sb.WriteString("}\n")
+	decl := sb.String()
+	nAddr := 1 << uint(b.W)
+	var prog strings.Builder
+	prog.WriteString("declare local var.p IP;\ndeclare local var.s STRING;\ndeclare local var.o STRING;\nset var.o = \"\";\n")
+	addrs := []string{}
+	for a := 0; a < nAddr; a++ {
+		x := e4.addr(b.W, a)
+		addrs = append(addrs, x)
+		fmt.Fprintf(&prog, "set var.s = %q;\nif (var.s ~ t) { set var.o = var.o \"1\"; } else { set var.o = var.o \"0\"; }\n", x)
+	}
+	for a := 0; a < nAddr; a++ {
+		x := e6.addr(b.W, a)
+		addrs = append(addrs, x)
+		fmt.Fprintf(&prog, "set var.p = %q;\nif (var.p !~ t) { set var.o = var.o \"0\"; } else { set var.o = var.o \"1\"; }\n", x)
+	}
+	input := map[string]any{"family": "mixed", "acl": decl, "addresses": addrs}
+	res.Input = input
+	res.Key = "mixed:" + decl
+	res.Class = map[string]any{"component": "acl", "family": "mixed", "entries": len(b.Acl), "has_negated": hasNeg, "has_unmasked": hasNoMask}
+	fail := func(item map[string]any) {
+		res.Mismatch = append(res.Mismatch, item)
+		input["beh"] = json.RawMessage(raw)
+	}
+	m, err := evalrt.NewMachine("recv", decl)
+	if err != nil {
+		fail(map[string]any{"obs": "acl-declaration-rejected", "error": err.Error()})
+		return res
+	}
+	stmts, perr := evalrt.ParseStatements(prog.String())
+	if perr != nil {
+		res.Drift = append(res.Drift, map[string]any{"obs": "parse", "error": perr.Error()})
+		res.Validated = false
+		return res
+	}
+	if o := m.Exec(stmts); o.Kind != "ok" {
+		fail(map[string]any{"obs": "status", "expected": "ok", "got": o.Kind, "msg": o.Msg})
+		return res
+	}
+	got := m.Read("var.o")
+	res.Observed = got.Str
+	if len(got.Str) != 2*nAddr {
+		fail(map[string]any{"obs": "result-vector", "got": got.Str})
+		return res
+	}
+	for i := 0; i < 2*nAddr; i++ {
+		a := i % nAddr
+		k := fmt.Sprint(a)
+		exp, amb := b.ROdd[k], b.AmbOdd[k]
+		if i >= nAddr {
+			exp, amb = b.REven[k], b.AmbEven[k]
+		}
+		if amb == 1 {
+			continue
+		}
+		if g := int(got.Str[i] - '0'); g != exp {
+			fail(map[string]any{"obs": "acl-match", "addr": addrs[i], "expected": exp == 1, "got": g == 1})
 		}
 	}
 	return res
